@@ -169,6 +169,31 @@ def draw_cfg(rng, prop: str, tier: str, overrides=None) -> dict:
         cfg["p_refuse"] = 0.25
         w["move"] = max(w.get("move", 0), 12) * 3
         w["remove"] = max(w.get("remove", 0), 10) * 2
+    # swarm member "boundary": one bulk step creates a child count / clone count /
+    # depth just around a natural boundary (small-int cache, recursion limit, 2**10)
+    cfg["bulk"] = None
+    p_bulk = 0.012 if tier == "quick" else 0.02
+    if prop in ("C03", "C07", "C08"):
+        p_bulk *= 2  # copy / filter / uniqueness code has most of the size dependent paths
+    if rng.random() < p_bulk:
+        kind = rng.choice(["wide", "wide", "clones", "chain"])
+        if kind == "chain":
+            n = rng.choice([255, 256, 257, 258, 300])
+        else:
+            n = rng.choice([255, 256, 257, 258, 1000, 1001, 1002, 1024, 1025])
+        cfg["bulk"] = {"kind": kind, "n": n, "at": rng.randint(0, 4)}
+        cfg["length"] = rng.randint(8, 25)
+        cfg["max_nodes"] = 10 ** 6
+        cfg["p_fault"] = 0.0
+        for k in ("clear", "restart", "copy", "copy_to"):
+            w[k] = w.get(k, 0) * 0.3
+        w["filter"] = max(w.get("filter", 0), 3) * 3
+        w["move"] = max(w.get("move", 0), 12) * 2
+        w["remove"] = max(w.get("remove", 0), 10)
+        cfg["p_steer"] = max(cfg["p_steer"], 0.3)
+        cfg["p_refuse"] = max(cfg["p_refuse"], 0.1)
+        if "s" not in cfg["flavours"]:
+            cfg["flavours"].append("s")
     cfg["weights"] = w
     keys = []
     for f in flav:
@@ -232,7 +257,7 @@ def pick_parent(rng, w: World, si: int, shape=None) -> MNode:
     ns = mt.nodes()
     if ns and shape == "deep" and rng.random() < 0.8:
         cand = ns[-1] if rng.random() < 0.5 else max(ns, key=lambda n: n.depth())
-        if cand.depth() < 150:  # observers recurse; stay far below the interpreter limit
+        if cand.depth() < 300:  # observers recurse; stay far below the interpreter limit
             return cand
     if ns and shape == "wide" and rng.random() < 0.8:
         return ns[0] if rng.random() < 0.6 else mt.root
@@ -789,6 +814,95 @@ def gen_read(rng, cfg, w: World, opid, invalid, steer):
     return op
 
 
+def gen_bulk_followup(rng, cfg, w: World, opid):
+    """Operations that lean on the structure a bulk step created (very wide parent,
+    very large clone group, very deep chain)."""
+    b = cfg["bulk"]
+    mt = w.slots[0].model
+    made = [n for n in mt.nodes() if n.uid.startswith(f"n{b['at']}.")]
+    if not made:
+        return None
+    first = made[0]
+    hub = first.parent
+    hub_ref = ref_of(0, hub)
+    kind = b["kind"]
+    r = rng.random()
+    if kind == "clones":
+        leaf_key = "s:" + cfg["labels"][0]
+        leaves = [n for n in made if n.parent in made and not n.children]
+        if r < 0.4:
+            return {"id": opid, "k": "add", "api": "add", "parent": "T0", "src": {"data": leaf_key}}
+        if r < 0.6 and leaves:
+            return {"id": opid, "k": "move", "node": rng.choice(leaves).uid, "target": "T0"}
+        if r < 0.8 and leaves:
+            return {"id": opid, "k": "add", "api": "add", "parent": hub_ref,
+                    "src": {"node": rng.choice(leaves).uid}}
+        if leaves:
+            return {"id": opid, "k": "remove", "node": rng.choice(leaves).uid,
+                    "with_clones": rng.random() < 0.3}
+        return None
+    if kind == "wide":
+        kids = [n for n in made if n.parent is hub]
+        if r < 0.35:
+            # reject a whole (very wide) level, or all but one child
+            verdicts = {}
+            keep = rng.choice(kids).uid if kids and rng.random() < 0.5 else None
+            for n in hub.iter_pre():
+                verdicts[n.uid] = "T" if n.uid == keep else "F"
+            if not hub.is_root():
+                verdicts[hub.uid] = "F"
+            tgt = hub_ref if rng.random() < 0.5 else "T0"
+            return {"id": opid, "k": "filter", "target": tgt, "verdicts": verdicts, "default": "F"}
+        if r < 0.6 and cfg["ids"]:
+            # a node with an explicit id next to / moved next to its twin below the wide parent
+            xid = cfg["ids"][0]
+            twins = [n for n in mt.nodes() if n.did == xid]
+            if not any(t.parent is hub for t in twins):
+                return {"id": opid, "k": "add", "api": "add", "parent": hub_ref,
+                        "src": {"data": "s:" + cfg["labels"][0]}, "data_id": xid}
+            outside = [t for t in twins if t.parent is not hub]
+            if outside:
+                return {"id": opid, "k": "move", "node": outside[0].uid, "target": hub_ref}
+            other = [n for n in mt.nodes() if n.parent is not hub and n is not hub]
+            par = rng.choice(other).uid if other else "T0"
+            return {"id": opid, "k": "add", "api": "add", "parent": par,
+                    "src": {"data": "s:" + cfg["labels"][-1]}, "data_id": xid}
+        if r < 0.75 and kids:
+            return {"id": opid, "k": "move", "node": rng.choice(kids).uid, "target": hub_ref,
+                    "before": rng.choice([True, None, {"node": rng.choice(kids).uid}])}
+        if r < 0.85:
+            return {"id": opid, "k": "sort", "target": hub_ref, "reverse": rng.random() < 0.5}
+        if not hub.is_root():
+            return {"id": opid, "k": "remove", "node": hub.uid, "keep_children": True}
+        return None
+    # chain
+    deepest = max(made, key=lambda n: n.depth())
+    if r < 0.3 or (len(deepest.children) < 2 and r < 0.6):
+        return {"id": opid, "k": "add", "api": "add", "parent": deepest.uid,
+                "src": {"data": f"s:Z{opid}"}}
+    if r < 0.55:
+        tgt = "T0" if rng.random() < 0.5 else ("T1" if len(w.slots) > 1 and w.slots[1] else "T0")
+        return {"id": opid, "k": "add", "api": "add", "parent": tgt, "src": {"node": first.uid},
+                "deep": True}
+    if r < 0.8:
+        # copy-form / in-place filter that accepts only nodes near the bottom
+        verdicts = {}
+        for n in first.iter_pre(add_self=True):
+            verdicts[n.uid] = "N"
+        if deepest.children:
+            # several accepted siblings at the very bottom, reached through undecided parents
+            for c in deepest.children:
+                verdicts[c.uid] = ["SEL", "ret"]
+        else:
+            verdicts[deepest.uid] = ["SEL", "ret"]
+        if rng.random() < 0.5:
+            into = 1 if len(w.slots) > 1 else len(w.slots)
+            return {"id": opid, "k": "copy", "src": "T0", "into": max(into, 1), "api": "filtered",
+                    "verdicts": verdicts, "default": "F"}
+        return {"id": opid, "k": "filter", "target": "T0", "verdicts": verdicts, "default": "F"}
+    return {"id": opid, "k": "copy", "src": first.uid, "into": 1 if len(w.slots) > 1 else len(w.slots)}
+
+
 GENERATORS = {
     "add": gen_add, "move": gen_move, "remove": gen_remove,
     "remove_children": gen_remove_children, "clear": gen_clear, "del": gen_del,
@@ -814,6 +928,22 @@ def gen_op(rng, frng, cfg, w: World, opid: int):
     weights = dict(cfg["weights"])
     if total >= cfg["max_nodes"]:
         weights["add"] = weights.get("add", 0) * 0.05
+    b = cfg.get("bulk")
+    if b and opid == b["at"] and w.slots[0].model.flavour != "fs":
+        mt = w.slots[0].model
+        ns = mt.nodes()
+        parent = "T0" if (not ns or rng.random() < 0.4) else rng.choice(ns).uid
+        op = {"id": opid, "k": "bulk", "parent": parent, "n": b["n"]}
+        if b["kind"] == "chain":
+            op["chain"] = True
+        elif b["kind"] == "clones":
+            op["clone_leaf"] = "s:" + cfg["labels"][0]
+        return op
+    if b and opid > b["at"] and rng.random() < 0.6 and w.slots[0] is not None \
+            and w.slots[0].model.flavour != "fs":
+        op = gen_bulk_followup(rng, cfg, w, opid)
+        if op is not None:
+            return op
     if total == 0:
         kind = "add"
     else:
